@@ -37,9 +37,14 @@ type proc struct {
 
 // NewPool creates a pool of n workers re-executing the current binary in worker mode.
 func NewPool(n int, scratch string) (*Pool, error) {
-	exe, err := os.Executable()
-	if err != nil {
-		return nil, err
+	// /proc/self/exe keeps referring to the binary this process was started from,
+	// even if bin/vcheck is rebuilt while a check is running.
+	exe := "/proc/self/exe"
+	if _, err := os.Stat(exe); err != nil {
+		var e2 error
+		if exe, e2 = os.Executable(); e2 != nil {
+			return nil, e2
+		}
 	}
 	if n <= 0 {
 		n = runtime.NumCPU()
